@@ -10,6 +10,7 @@
 (*   testonly one dependency, all 8 combinations of (dep.test_only, t.is_test, t.test_only)             *)
 (*   vis2     two visibility entries (order matters to a loop that stops early)                         *)
 (*   deps2    two dependencies (a build fails if SOME dependency is illegal)                            *)
+(*   vis2w / deps3  (thorough) two entries over all packages; three dependencies                        *)
 EXTENDS Labels, TLC, Json
 CONSTANTS Profile, Segs3, Emit      \* Segs3: TRUE = segments {a, ab, b}, FALSE = {a, ab}
 VARIABLE c
@@ -40,6 +41,14 @@ Cases ==
          {Case(T(tp, tn, FALSE, FALSE), <<D(<<B>>, <<e1, e2>>, FALSE)>>, <<>>) :
             tp \in PSmall \cup {<<A, A>>}, tn \in {X, Y, HX},
             e1 \in Entries(PSmall \cup {<<A, A>>}), e2 \in Entries(PSmall \cup {<<A, A>>})}
+    [] Profile = "vis2w" ->
+         {Case(T(tp, tn, FALSE, FALSE), <<D(<<B>>, <<e1, e2>>, FALSE)>>, <<>>) :
+            tp \in P2, tn \in {X, Y, HX}, e1 \in Entries(P2), e2 \in Entries(P2)}
+    [] Profile = "deps3" ->
+         LET DM == {D(dp, vis, dto) : dp \in {<<A>>, <<AB>>}, dto \in BOOLEAN,
+                                      vis \in {<<>>, <<PUBLIC>>, <<Pat(<<A>>, "sub", <<>>)>>, <<Pat(<<AB>>, "all", <<>>)>>}}
+         IN {Case(T(tp, X, tt, tto), <<d1, d2, d3>>, exp) :
+               tp \in PSmall, tt \in BOOLEAN, tto \in BOOLEAN, d1 \in DM, d2 \in DM, d3 \in DM, exp \in {<<>>, <<<<A>>>>}}
     [] Profile = "deps2" ->
          LET DM == {D(dp, vis, dto) : dp \in {<<A>>, <<AB>>}, dto \in BOOLEAN,
                                       vis \in {<<>>, <<PUBLIC>>, <<Pat(<<A>>, "sub", <<>>)>>, <<Pat(<<AB>>, "all", <<>>)>>}}
